@@ -28,6 +28,15 @@ fn answer(idx: u32, token: u64) -> Result<RV, RErr> {
     }
 }
 
+/// symbols registered in every C05 ruleset and fields of its input, by the same names
+fn fixed_env() -> Vec<(&'static str, RV)> {
+    vec![("on", RV::Bool(true)), ("off", RV::Bool(false)), ("nn", RV::None), ("n7", RV::Int(7))]
+}
+
+fn fixed_facts() -> RV {
+    RV::Map(fixed_env().into_iter().map(|(k, v)| (k.to_string(), v)).collect())
+}
+
 fn fixed_container() -> RV {
     RV::map(&[("a", RV::Int(1)), ("l", RV::List(vec![RV::Int(2)]))])
 }
@@ -161,6 +170,51 @@ fn shapes(tier: Tier) -> Vec<Shape> {
     ] {
         out.push(Shape { label: label.to_string(), tree });
     }
+    // mixed leaves: some child positions are not probes but a symbol, an input field or a constant
+    // holding true / false / none / a non-boolean (whatever sits next to a probe, the probe is
+    // invoked exactly when the language says so)
+    for k in ks.iter().filter(|k| k.arity >= 2) {
+        for mask in 1u32..((1 << k.arity) - 1) {
+            for (route, rname) in ["sym", "field", "const"].iter().enumerate().map(|(i, n)| (i, *n)) {
+                for (name, val) in fixed_env() {
+                    let mut n = 0;
+                    let children: Vec<RE> = (0..k.arity)
+                        .map(|i| {
+                            if mask >> i & 1 == 1 {
+                                match route {
+                                    0 => RE::Sym(name.to_string()),
+                                    1 => RE::reff(name),
+                                    _ => RE::Val(val.clone()),
+                                }
+                            } else {
+                                probe_leaf(&mut n)
+                            }
+                        })
+                        .collect();
+                    out.push(Shape { label: format!("{}/fixed{mask:03b}/{rname}:{name}", k.label), tree: (k.build)(children) });
+                }
+            }
+        }
+    }
+    // the fixed leaf under a `!`, or a conjunction of two of them, next to a probe
+    for (lbl, op) in [("And", BinOp::And), ("Or", BinOp::Or)] {
+        for (name, _) in fixed_env() {
+            for (vi, fixed) in [
+                RE::un(UnOp::Not, RE::Sym(name.to_string())),
+                RE::bin(BinOp::And, RE::Sym(name.to_string()), RE::Sym("on".into())),
+                RE::bin(BinOp::Or, RE::Sym(name.to_string()), RE::Sym("off".into())),
+                RE::un(UnOp::Not, RE::reff(name)),
+            ]
+            .into_iter()
+            .enumerate()
+            {
+                let mut n = 0;
+                out.push(Shape { label: format!("{lbl}/probe-then-fixed{vi}/{name}"), tree: RE::bin(op, probe_leaf(&mut n), fixed.clone()) });
+                let mut n = 0;
+                out.push(Shape { label: format!("{lbl}/fixed{vi}-then-probe/{name}"), tree: RE::bin(op, fixed, probe_leaf(&mut n)) });
+            }
+        }
+    }
     for k in &wide_kinds() {
         let mut n = 0;
         let children: Vec<RE> = (0..k.arity).map(|_| probe_leaf(&mut n)).collect();
@@ -291,8 +345,8 @@ impl Env for ScriptEnv<'_> {
     fn facts(&self) -> &RV {
         &self.facts
     }
-    fn symbol(&self, _: &str) -> Option<RV> {
-        None
+    fn symbol(&self, name: &str) -> Option<RV> {
+        fixed_env().into_iter().find(|(n, _)| *n == name).map(|(_, v)| v)
     }
     fn call(&mut self, name: &str, arg: &RV) -> RRes {
         if name == "m" {
@@ -355,8 +409,11 @@ fn make_ruleset(tree: &RE, world: &Arc<Mutex<World>>) -> Result<RuleSet, String>
         (r, if g.suspend { 1 } else { 0 })
     });
     let expr = tree.try_to_expr().map_err(|p| format!("constructor panicked: {p}"))?;
-    ruleset()
-        .with_rule(Rule::new("r", BTreeMap::new(), expr))
+    let mut b = ruleset();
+    for (n, v) in fixed_env() {
+        b = b.with_symbol(n, v.to_value());
+    }
+    b.with_rule(Rule::new("r", BTreeMap::new(), expr))
         .and_then(|b| b.with_function(probe("p", false, &handler)))
         .and_then(|b| b.with_function(probe("k", true, &handler)))
         .and_then(|b| b.with_function(probe("m", false, &handler)))
@@ -375,7 +432,8 @@ fn run_once(rs: &RuleSet, world: &Arc<Mutex<World>>, ch: Option<SharedChooser>, 
         g.log.clear();
         g.answers.clear();
     }
-    let r = catch(|| block_on(rs.evaluate_value(&Value::None)));
+    let facts = fixed_facts().to_value();
+    let r = catch(|| block_on(rs.evaluate_value(&facts)));
     let obs = match r {
         Err(p) => Obs::Panic(p),
         Ok(Err(m)) => Obs::Panic(format!("MACHINERY: {m}")),
@@ -394,7 +452,7 @@ fn run_once(rs: &RuleSet, world: &Arc<Mutex<World>>, ch: Option<SharedChooser>, 
 }
 
 fn check_history(shape_label: &str, tree: &RE, obs: &Obs, log: &[(String, RV)], answers: &[u32], acc: &mut Acc) {
-    let mut env = ScriptEnv { ans_pos: 0, cache: BTreeMap::new(), answers, log: Vec::new(), overrun: false, facts: RV::None };
+    let mut env = ScriptEnv { ans_pos: 0, cache: BTreeMap::new(), answers, log: Vec::new(), overrun: false, facts: fixed_facts() };
     let exp = eval(tree, &mut env);
     acc.count("executions", 1);
     acc.outcome(format!("{}:calls={}", obs.class(), log.len()));
